@@ -29,6 +29,25 @@ BUILD_ENV = {
 }
 
 
+
+BULKY = ("timeline", "events", "ops_on_key", "schedule", "faults", "log_tail", "histories", "ops", "trace")
+
+
+def witness_digest(w, limit=4000):
+    """the witness without its bulky fields, one line, bounded"""
+    try:
+        if isinstance(w, dict):
+            d = {k: v for k, v in w.items() if k not in BULKY}
+            if "ops_on_key" in w:
+                d["ops_on_key_tail"] = w["ops_on_key"][-6:]
+        else:
+            d = w
+        s = json.dumps(d, default=str, sort_keys=True)
+    except Exception as e:       # the digest must never turn a verdict into a crash
+        s = "<digest failed: %r>" % (e,)
+    return s if len(s) <= limit else s[:limit] + "...<cut>"
+
+
 class Inconclusive(Exception):
     pass
 
@@ -260,6 +279,9 @@ class Outcome:
                     json.dump({"property": self.pid, "signature": sig, "seed": self.seed, "tier": self.tier,
                                "count": v["count"], "witness": v["witness"]}, f, indent=1, default=str)
                 print("VIOLATION property=%s replay=%s signature=%s" % (self.pid, path, sig), flush=True)
+                # a digest of the witness in the output itself: when the run happens on a discarded copy of the sandbox the replay file is
+                # gone, and an alarm that cannot be triaged is worth nothing (DESIGN 6.3, C06 unwritten-value)
+                print("WITNESS-DIGEST property=%s signature=%s %s" % (self.pid, sig, witness_digest(v["witness"])), flush=True)
             return 1
         if inconclusive:
             print("INCONCLUSIVE property=%s reason=%s" % (self.pid, inconclusive), flush=True)
